@@ -73,6 +73,14 @@ impl Iterator for Scanlines {
     }
 }
 
+#[cfg(embedded_graphics_verif)]
+impl Scanlines {
+    /// Verification hook: restricts the iterator to the single row `y`.
+    pub(in crate::primitives) fn verif_set_row(&mut self, y: i32) {
+        self.rows = y..y + 1;
+    }
+}
+
 #[cfg(test)]
 mod tests {
     use super::*;
